@@ -132,6 +132,7 @@ def E4(inp, N, n=2):
         # the no-op may already have been sent to connected peers (nextIndex = last+2 then)
         cl['next_match_reset'] = And([And(Eq(q.next.get(x.id), Ite(p.conn[x.id], p.last + 2, p.last + 1)), Eq(q.match.get(x.id), 0)) for x in p.others])
         cl['response_times_reset'] = And([Eq(q.resp.get(x.id), now) for x in p.others])
+        cl['own_noop_index_recorded'] = Eq(get(o, 'noopIDx'), p.last + 1)
     else:
         cl['log_untouched'] = so.logs_equal(p.log, q.log)
     obs = lambda: dict(role=p.role, became=became, post_role=q.role, sent=[(nd.id, m['type']) for nd, m in tr.sent], exc=show(exc))
